@@ -53,6 +53,14 @@ type c11Input struct {
 	// cw (a Cache.Write held on a gate): what runs while the poll's write is held
 	Variant string `json:"variant,omitempty"` // lookup | lookup+refresh | refresh | close
 	NChg    int    `json:"nchg,omitempty"`    // how many declared secrets have a pending change
+	// two (two stores in one process whose polls overlap)
+	NA     int  `json:"na,omitempty"`     // names only store A declares
+	NB     int  `json:"nb,omitempty"`     // names only store B declares
+	NShare int  `json:"nshare,omitempty"` // names both declare (served by two different services)
+	HeldB  bool `json:"held_b,omitempty"` // the poll that is HELD is store B's (else A's)
+	OTick  bool `json:"other_tick,omitempty"` // the other store's poll is started by its ticker
+	JoinH  bool `json:"join_held,omitempty"`  // a second Refresh joins the held store's poll (must coalesce THERE)
+	Rounds int  `json:"rounds,omitempty"`
 }
 
 type c11CEnt struct {
@@ -1189,6 +1197,231 @@ func c11CacheWriteLookup(r *c11Run, in c11Input, lname string, now0 int64, sv0, 
 	return rec
 }
 
+// ---------------------------------------------------------------- two stores in one process
+
+// answerPlain lets the service answer the held request p now (no scripted failure).
+func (r *c11Run) answerPlain(p *c11Pending) {
+	r.svc.mu.Lock()
+	v, tok, present := r.svc.activeOf(p.name)
+	var ans c11Answer
+	respT := "re"
+	switch {
+	case p.ctx.Err() != nil:
+	case !present:
+		ans.err = api.ErrNotFound
+	case v == p.old:
+		ans.err = api.ErrValueNotChanged
+		respT = "rn"
+	default:
+		ans.sv = &api.SecretValue{Version: api.SecretVersion(v), Value: append([]byte(nil), r.svc.secs[p.name].vers[v]...)}
+		respT = fmt.Sprintf("(rv %d %d)", v, tok)
+	}
+	r.svc.mu.Unlock()
+	r.emit(true, fmt.Sprintf("Q %s false false", coqBytes([]byte(p.name))), append(r.writes(), fmt.Sprintf("oq (Some %d) %s", p.old, respT)))
+	p.rel <- ans
+}
+
+// c11NewPlainRun builds a store with its own scripted service, cache and ticker.
+func c11NewPlainRun(names []string, extraPuts int) (r *c11Run, head func(steps []string) string, err error) {
+	in := c11Input{Kind: "scn", Names: names, NDecl: len(names)}
+	r = &c11Run{in: in, svc: c11NewSvc(), cache: &c11Cache{}, handles: map[string]setec.Secret{}, altIdx: -1}
+	r.svc.gated = true
+	r.tick = &c11Ticker{ch: make(chan time.Time), done: make(chan struct{}, 1)}
+	var sv0, nameT []string
+	for _, n := range names {
+		for k := 0; k <= extraPuts; k++ {
+			r.svc.put(n)
+		}
+		r.svc.secs[n].active = uint32(1 + extraPuts)
+	}
+	for _, n := range sortedKeys(r.svc.secs) {
+		v, t, _ := r.svc.activeOf(n)
+		sv0 = append(sv0, fmt.Sprintf("(%s,(%d,%d))", coqBytes([]byte(n)), v, t))
+	}
+	sorted := append([]string(nil), names...)
+	sort.Strings(sorted)
+	for _, n := range sorted {
+		nameT = append(nameT, coqBytes([]byte(n)))
+	}
+	now0 := time.Now().Unix()
+	r.st, err = setec.NewStore(context.Background(), setec.StoreConfig{
+		Client: r.svc, Secrets: append([]string(nil), names...), Cache: r.cache, PollTicker: r.tick, Logf: func(string, ...any) {},
+	})
+	if err != nil {
+		return nil, nil, err
+	}
+	initOut := r.writes()
+	head = func(steps []string) string {
+		return fmt.Sprintf("Scn %s None %s %d false 0 %s %s", coqList(nameT), coqList(sv0), now0, coqList(initOut), coqList(steps))
+	}
+	return r, head, nil
+}
+
+// c11TwoStores: two Stores with different services; a poll of one is HELD in its service while
+// the other store refreshes.  Each store is judged against its own model instance: the other
+// store's poll must send its own round of requests, complete without waiting for the held
+// request, and leave its own service's active versions in its store.
+func c11TwoStores(in c11Input) []Record {
+	var namesA, namesB []string
+	for i := 0; i < in.NShare; i++ {
+		namesA = append(namesA, fmt.Sprintf("s%d", i))
+		namesB = append(namesB, fmt.Sprintf("s%d", i))
+	}
+	for i := 0; i < in.NA; i++ {
+		namesA = append(namesA, fmt.Sprintf("a%d", i))
+	}
+	for i := 0; i < in.NB; i++ {
+		namesB = append(namesB, fmt.Sprintf("b%d", i))
+	}
+	fail := func(what string) []Record {
+		return []Record{{Kind: "two", Input: in, Direct: &DirectVerdict{OK: false, What: what}}}
+	}
+	rA, headA, err := c11NewPlainRun(namesA, 0)
+	if err != nil {
+		return fail("NewStore (A) failed: " + err.Error())
+	}
+	rB, headB, err := c11NewPlainRun(namesB, 2) // B's service is at other version numbers than A's
+	if err != nil {
+		return fail("NewStore (B) failed: " + err.Error())
+	}
+	held, other := rA, rB
+	if in.HeldB {
+		held, other = rB, rA
+	}
+	for round := 0; round < max(in.Rounds, 1); round++ {
+		// both services change (every name of the other store; the first name of the held one)
+		for i := range other.in.Names {
+			other.srvOp(c11Op{K: "srv", N: i, Sub: "new"}, false)
+		}
+		held.srvOp(c11Op{K: "srv", N: 0, Sub: "new"}, false)
+		// the held store's poll: its first request stays in the service
+		var hcallers []*c11Caller
+		held.emit(true, fmt.Sprintf("R %d", time.Now().UnixNano()), nil)
+		hcallers = append(hcallers, held.newCaller())
+		synctest.Wait()
+		ph := held.svc.takePending()
+		if ph == nil {
+			held.direct = "the poll sent no request"
+			break
+		}
+		if in.JoinH {
+			held.emit(true, fmt.Sprintf("R %d", time.Now().UnixNano()), nil)
+			hcallers = append(hcallers, held.newCaller())
+			synctest.Wait()
+		}
+		// meanwhile the other store refreshes
+		other.emit(true, fmt.Sprintf("R %d", time.Now().UnixNano()), nil)
+		var oc *c11Caller
+		if in.OTick {
+			other.tick.ch <- time.Now()
+		} else {
+			oc = other.newCaller()
+		}
+		for guard := 0; guard < 50; guard++ {
+			synctest.Wait()
+			p := other.svc.takePending()
+			if p == nil {
+				break
+			}
+			other.answerPlain(p)
+		}
+		synctest.Wait()
+		otherDone := false
+		finishOther := func() {
+			outs := other.writes()
+			if in.OTick {
+				select {
+				case <-other.tick.done:
+					otherDone = true
+				default:
+				}
+			} else {
+				select {
+				case err := <-oc.ch:
+					otherDone = true
+					outs = append(outs, c11Class(err))
+				default:
+				}
+			}
+			if otherDone {
+				other.emit(!in.OTick, "E_", outs)
+				if oc != nil {
+					oc.cancel()
+				}
+			}
+		}
+		finishOther()
+		waited := !otherDone
+		// what the other store yields now must be its own service's values
+		for i, n := range other.in.Names {
+			_ = n
+			other.storeOp(c11Op{K: "secret", N: i})
+			other.storeOp(c11Op{K: "read", N: i})
+		}
+		// now the held request is answered and the held poll runs to its end
+		held.answerPlain(ph)
+		for guard := 0; guard < 50; guard++ {
+			synctest.Wait()
+			p := held.svc.takePending()
+			if p == nil {
+				break
+			}
+			held.answerPlain(p)
+		}
+		synctest.Wait()
+		houts := held.writes()
+		for _, c := range hcallers {
+			select {
+			case err := <-c.ch:
+				houts = append(houts, c11Class(err))
+			default:
+				held.direct = "a Refresh of the held store did not return although its poll is over"
+			}
+			c.cancel()
+		}
+		held.emit(true, "E_", houts)
+		if waited {
+			// the other store's Refresh had not returned while the held request was pending
+			for guard := 0; guard < 50; guard++ { // (in case it only starts its own round now)
+				synctest.Wait()
+				p := other.svc.takePending()
+				if p == nil {
+					break
+				}
+				other.answerPlain(p)
+			}
+			synctest.Wait()
+			finishOther()
+			other.direct = "a Refresh of one store did not complete while ANOTHER store's poll was held in its service (it sent none of its own requests meanwhile)"
+			if !otherDone {
+				other.direct = "a Refresh of one store never returned after another store's poll"
+			}
+		}
+		for i := range held.in.Names {
+			held.storeOp(c11Op{K: "secret", N: i})
+			held.storeOp(c11Op{K: "read", N: i})
+		}
+	}
+	rA.st.Close()
+	rA.emit(true, "X", rA.writes())
+	rB.st.Close()
+	rB.emit(true, "X", rB.writes())
+	kb, _ := json.Marshal(in)
+	mk := func(r *c11Run, head func([]string) string, which string) Record {
+		rec := Record{Kind: "two", Input: in, Obs: r.obs, Coq: head(r.steps), Key: string(kb) + "/" + which, Nontrivial: true,
+			Tags: []string{"two-stores", "two-stores:" + which}}
+		if r == held {
+			rec.Tags = append(rec.Tags, "two-stores:held")
+		}
+		if r.direct != "" {
+			rec.Direct = &DirectVerdict{OK: false, What: r.direct}
+		}
+		return rec
+	}
+	c11Alt = ""
+	return []Record{mk(rA, headA, "A"), mk(rB, headB, "B")}
+}
+
 // ---------------------------------------------------------------- generation
 
 func c11SrvOp(rng *rand.Rand, nNames int) c11Op {
@@ -1441,6 +1674,15 @@ func runC11(o Opts) {
 		var selfs []Record
 		runOne := func(in c11Input, corpus string) {
 			var rec Record
+			if in.Kind == "two" {
+				var recs []Record
+				bubble(t, func(t *testing.T) { recs = c11TwoStores(in) })
+				for _, r := range recs {
+					r.Corpus = corpus
+					out.Emit(r)
+				}
+				return
+			}
 			if in.Kind == "cw" { // real goroutines, real time (a goroutine blocked on the store's mutex is not "durably blocked" for synctest)
 				rec = c11CacheWrite(in)
 			} else {
@@ -1533,6 +1775,24 @@ func runC11(o Opts) {
 				in.Fracs = append(in.Fracs, f)
 			}
 			runOne(in, "")
+		}
+		// two stores in one process, overlapping polls
+		nTwo := 0
+		for share := 0; share <= 2; share++ {
+			for extra := 0; extra <= 2; extra++ {
+				if share+extra == 0 {
+					continue
+				}
+				for v := 0; v < 4; v++ {
+					in := c11Input{Kind: "two", NShare: share, NA: extra, NB: (extra + v) % 3, HeldB: v%2 == 1, OTick: v == 2,
+						JoinH: (share+extra+v)%2 == 0, Rounds: 1 + (share+v)%2}
+					if in.NShare+in.NB == 0 {
+						in.NB = 1
+					}
+					runOne(in, "")
+					nTwo++
+				}
+			}
 		}
 		// a Cache.Write held on a gate
 		for nd := 1; nd <= 3; nd++ {
